@@ -41,7 +41,7 @@ def noise_items(S):
             if len(r) == 1 and r[0][0] in ("<=", "<"):
                 return r[0][1] - (1 if r[0][0] == "<" else 0), r[0][2]
         raise ExtractError(item)
-    S.item("noise_hash_len", ("role:`<protocol_name>.len() <= N` of SymmetricState::new", hash_role),
+    S.try_item("noise_hash_len", ("role:`<protocol_name>.len() <= N` of SymmetricState::new", hash_role),
            ("name:const HASH_LEN", lambda: named_const_int(S, C, "HASH_LEN", "noise.rs:HASH_LEN")))
 
     def hash_buf():
@@ -53,7 +53,7 @@ def noise_items(S):
                 if o.kind == "fill":
                     return zero_fill_size(F, o, item), where_of(F, o)
         raise ExtractError(item)
-    S.item("noise_hash_output_len", ("role:zeroed array given to Key::new in SymmetricState::new", hash_buf))
+    S.try_item("noise_hash_output_len", ("role:zeroed array given to Key::new in SymmetricState::new", hash_buf))
 
     # ---- protocol name, pattern
     def proto():
@@ -65,7 +65,7 @@ def noise_items(S):
                 need(o.kind == "str", item + ":not a string constant")
                 return list(o.value), c.where()
         raise ExtractError(item)
-    S.item("noise_protocol_name", ("role:string given to SymmetricState::new in init_x", proto))
+    S.try_item("noise_protocol_name", ("role:string given to SymmetricState::new in init_x", proto))
 
     def pattern_of(F, o, item):
         need(o.kind == "arrexpr", item + ":not a list of tokens")
@@ -94,7 +94,7 @@ def noise_items(S):
                 o = F.origin(*L.init)
                 return pattern_of(F, o, item), L.where()
         raise ExtractError(item + ":let pattern")
-    S.item("noise_pattern", ("role:vector pushed onto message_patterns in init_x", pattern_role),
+    S.try_item("noise_pattern", ("role:vector pushed onto message_patterns in init_x", pattern_role),
            ("name:let pattern = vec![..]", pattern_name))
 
     # ---- read_message: guard, DH_LEN, tag
@@ -120,7 +120,7 @@ def noise_items(S):
                 is_err = 1 if "return Err" in body and "panic" not in body else 0
                 return {"noise_guard_min": mn, "noise_guard_max": mx, "noise_guard_is_error": is_err}, r[0][2]
         raise ExtractError(item)
-    S.group(["noise_guard_min", "noise_guard_max", "noise_guard_is_error"],
+    S.try_group(["noise_guard_min", "noise_guard_max", "noise_guard_is_error"],
             ("role:`if <message>.len() < A || <message>.len() > B` of read_message", guard))
 
     def dh_role():
@@ -156,7 +156,7 @@ def noise_items(S):
     def dh_name():
         v, w = named_const_int(S, C, "DH_LEN", "noise.rs:DH_LEN")
         raise ExtractError("noise.rs:DH_LEN found by name (%d) but the S-token lengths were not" % v)
-    S.group(["noise_dh_len", "noise_s_len_keyed", "noise_s_len_plain"],
+    S.try_group(["noise_dh_len", "noise_s_len_keyed", "noise_s_len_plain"],
             ("role:widths of the slices of <message> in read_message", dh_role), ("name:const DH_LEN", dh_name))
 
     # ---- set_nonce assert, nonce step
@@ -179,7 +179,7 @@ def noise_items(S):
                     if v == Lin(0, {"p1": 1}) and k == (1 << 64) - 1 and o2 in ("<", "!="):
                         ok = 1
         return ok, {"file": F.f.rel, "line": F.fn.line}
-    S.item("noise_set_nonce_assert_max", ("role:assert!(<nonce> < u64::MAX) of set_nonce", set_nonce))
+    S.try_item("noise_set_nonce_assert_max", ("role:assert!(<nonce> < u64::MAX) of set_nonce", set_nonce))
 
     def step(fname):
         def th():
@@ -191,8 +191,8 @@ def noise_items(S):
             need(len(v.t) == 1 and list(v.t.values()) == [1], item + ":not <nonce> + constant")
             return v.c, ms[0].where()
         return th
-    S.item("noise_nonce_step_enc", ("role:set_nonce(<nonce> + N) of encrypt_with_ad", step("encrypt_with_ad")))
-    S.item("noise_nonce_step_dec", ("role:set_nonce(<nonce> + N) of decrypt_with_ad", step("decrypt_with_ad")))
+    S.try_item("noise_nonce_step_enc", ("role:set_nonce(<nonce> + N) of encrypt_with_ad", step("encrypt_with_ad")))
+    S.try_item("noise_nonce_step_dec", ("role:set_nonce(<nonce> + N) of decrypt_with_ad", step("decrypt_with_ad")))
 
 
 def scrypt_items(S):
@@ -236,7 +236,7 @@ def scrypt_items(S):
         d["scrypt_n_div_r"] = ch[1]
         d["scrypt_asserts_shape_ok"] = 1 if shape else 0
         return d, As[0].where()
-    S.group(["scrypt_n_gt", "scrypt_rp_bound", "scrypt_usize_max", "scrypt_r_div_p", "scrypt_r_div", "scrypt_n_div_r",
+    S.try_group(["scrypt_n_gt", "scrypt_rp_bound", "scrypt_usize_max", "scrypt_r_div_p", "scrypt_r_div", "scrypt_n_div_r",
              "scrypt_asserts_shape_ok"], ("role:the six assert! of scrypt.rs::scrypt, in order", asserts))
 
     def sizes():
@@ -283,10 +283,12 @@ def scrypt_items(S):
         need(sorted(c for c in ch if not isinstance(c, int))[-1:] == ["p3"], item + ":smix offset is not i*k*r")
         d["scrypt_smix_stride"] = ks
         return d, sm.where()
-    S.group(["scrypt_pbkdf2_iters", "scrypt_v_factor", "scrypt_x_factor", "scrypt_y_factor", "scrypt_b_factor",
+    S.try_group(["scrypt_pbkdf2_iters", "scrypt_v_factor", "scrypt_x_factor", "scrypt_y_factor", "scrypt_b_factor",
              "scrypt_smix_stride"], ("role:buffers and derive_key calls of scrypt.rs::scrypt", sizes))
 
 
 def run(S):
-    noise_items(S)
-    scrypt_items(S)
+    with S.section("noise.rs"):
+        noise_items(S)
+    with S.section("scrypt.rs"):
+        scrypt_items(S)
